@@ -1,4 +1,5 @@
 ENGINE_TEXTS = {
+    "clock": "clocksim: discrete-event closed loop on a virtual clock around the real pacers, with injected stall histories; single-threaded",
     "stream": "streamsim: the real encoders, decoders, DecoderFor, NewRoundRobinDecoder and targeters over simulated files (Write-call boundaries recorded, crash = byte prefix, storage faults) and simulated readers (tape-chosen chunking, (n>0,EOF), zero-length reads, injected read errors); single-threaded, no clock",
     "attack": "attacksim: the real Attacker/hit/Stop code inside a testing/synctest bubble; a seeded controller releases one parked goroutine at a time (pacer, targeter, transport, body reader, consumers, Stop callers, armed statement breakpoints, mediated selects), advances the fake clock and injects faults; a reference model of the attack is checked in lock-step; plain and -race builds",
 }
@@ -37,5 +38,9 @@ TEXTS.update({
             "level_text": "exploration: merged sequence is a permutation of the union preserving each input's order, end only when all inputs are exhausted and on every later call; with a failing input only its own later records may be missing",
             "level_note": _STREAM_NOTE},
 })
+
+TEXTS["C01"] = {"engine": "clock", "design_ref": "§4 C01", "technique": "discrete-event closed-loop simulation in virtual time with injected stalls; independently computed schedule as oracle",
+    "level_text": "exploration: after every release hits <= S(t)+1; a positive wait only when the next hit is not yet due; constant and sine never more than one hit (+1 ns per hit) behind after an honoured wait; no panic; negative parameters stop, zero means unlimited; Rate(t) equals the closed-form slope of the schedule. Six genuine defects found this way were repaired in /repo (see known_findings.json)",
+    "level_note": "trusted: float64 evaluation of the declared closed forms (exact integers for the constant pacer); the ideal follower stands in for the attack loop (its obedience is C04)"}
 
 NOT_APPLICABLE = {}
